@@ -1662,13 +1662,25 @@ static Node *stmt(Token **rest, Token *tok) {
       error_tok(tok, "stray case");
 
     Node *node = new_node(ND_CASE, tok);
-    int begin = const_expr(&tok, tok->next);
-    int end;
+    long begin = const_expr(&tok, tok->next);
+    long end;
 
     if (equal(tok, "...")) {
       // [GNU] Case ranges, e.g. "case 1 ... 5:"
       end = const_expr(&tok, tok->next);
-      if (end < begin)
+
+      // The bounds are compared in the promoted type of the
+      // controlling expression.
+      add_type(current_switch->cond);
+      Type *ty = current_switch->cond->ty;
+      bool is_empty = end < begin;
+      if (ty->is_unsigned && ty->size == 8)
+        is_empty = (uint64_t)end < (uint64_t)begin;
+      else if (ty->is_unsigned && ty->size == 4)
+        is_empty = (uint32_t)end < (uint32_t)begin;
+      else if (ty->size < 8)
+        is_empty = (int32_t)end < (int32_t)begin;
+      if (is_empty)
         error_tok(tok, "empty case range specified");
     } else {
       end = begin;
